@@ -61,6 +61,7 @@ type Report struct {
 	Removes    int
 	Broken     string
 	FinalLog   []string
+	Names      map[string]int // when non-nil: every received name, counted
 }
 
 func (r *Report) fail() bool {
@@ -123,6 +124,9 @@ func (s *Session) Sync(rep *Report, checkList bool) bool {
 	}
 	// direct predicates on every received value
 	for i, e := range got {
+		if rep.Names != nil {
+			rep.Names[e.Name]++
+		}
 		if e.Op == 0 {
 			rep.Predicates = append(rep.Predicates, fmt.Sprintf("op-zero: event %v has an empty operation set", e))
 		}
